@@ -1,13 +1,13 @@
 import Py4hwV.Props.C09
 import Py4hwV.Lib.SeqNet
-import Py4hwV.Proofs.C01FlatNet
+import Py4hwV.Proofs.C09Flat
 /-
   C09, netlist level: the NETLIST a sequential block's constructor builds (Reg leaves + combinational leaves, all running
   their GENERATED step functions), simulated by `Net.Sim` (`Simulator.clk`: propagateAll, clock all, settle, propagateAll),
   behaves as the block's functional model `Lib.<block>` of Lib/Seq.lean — for every input history from power-up.
 
-  Generic part: `FlatM.NetD` (flat netlists of one-output combinational leaves + Reg leaves; C01's design-level
-  development) with C04 (`propagate_combfix`: after propagateAll every combinational output is at its fixpoint),
+  Generic part: `SeqFlat.NetD` (flat netlists of one-output combinational leaves + Reg leaves; a private copy of C01's
+  design-level development, Proofs/C09Flat.lean) with C04 (`propagate_combfix`: after propagateAll every combinational output is at its fixpoint),
   C05 (`edge_sim`: every register is clocked on the pre-edge values) ⇒ `cycle`.
   Per block: a netlist builder `…Net` (a `KNet`: kinds in instantiation order, registers, widths, schedule) which
   harness/c09.py compares at every run with the netlist dumped from the LIVE constructor (dump_ir.py; stream
@@ -16,7 +16,7 @@ import Py4hwV.Proofs.C01FlatNet
 -/
 set_option linter.unusedSimpArgs false
 namespace C09N
-open Net FlatM Lib Leaf C09
+open Net SeqFlat Lib Leaf C09
 
 /-- structural side conditions: the schedule is an evaluation order containing every combinational leaf, registers
     drive distinct wires, no combinational leaf drives a register output -/
@@ -85,7 +85,7 @@ theorem putW_val (D : NetD) (s : State Int) (w : Nat) (v : Int) :
     putW D.design s (w, v) = { s with val := upd s.val w (Bits.put (D.wd w) v) } := by
   simp only [putW]
   congr 2
-  exact FlatM.wput _ _
+  exact SeqFlat.wput _ _
 
 /-- power-up of a flat netlist (`Reg.__init__` puts the reset value on q, then `Simulator.__init__` propagates) -/
 theorem init_state (D : NetD) (h : NetOK D) :
@@ -118,17 +118,17 @@ theorem init_state (D : NetD) (h : NetOK D) :
         (by simp only [NetD.cons]; exact List.mem_map.mpr ⟨R, hmem, rfl⟩)
       rw [this]
       simp only [C04.mval]
-      exact FlatM.wput _ _
+      exact SeqFlat.wput _ _
 
 /-! ## TReg -/
 
 /-- register rule of C01 (`regNext`) = the Lib register on attribute-equals-wire states -/
 theorem nat_regNext (w : Nat) (hasR hasE : Bool) (vr ve vd q : Nat) (hd : vd < 2 ^ w) (hq : q < 2 ^ w) :
-    regClk w 0 (opt hasE ve) (opt hasR vr) vd (nat q) = nat (C01.regNext hasR hasE 0 vr ve vd q) ∧
-    C01.regNext hasR hasE 0 vr ve vd q < 2 ^ w := by
+    regClk w 0 (opt hasE ve) (opt hasR vr) vd (nat q) = nat (SeqFlat.regNext hasR hasE 0 vr ve vd q) ∧
+    SeqFlat.regNext hasR hasE 0 vr ve vd q < 2 ^ w := by
   have hp := Nat.two_pow_pos w
   rw [regClk_nat w _ _ vd q hd hq]
-  unfold C01.regNext
+  unfold SeqFlat.regNext
   cases hasR <;> cases hasE <;> simp [opt] <;> (repeat' split) <;> simp_all <;> omega
 
 theorem tregNet_ok (hasE hasR : Bool) : NetOK (tregNet hasE hasR).netD := by
@@ -184,21 +184,21 @@ theorem treg_step (hasE hasR : Bool) (s : State Int) (st : RegSt) (i : TRegIn)
   have v4 : (propagateAll D.design sp).val 4 = i.r := by rw [hin1 4 (by simp [D, KNet.netD, tregNet, Kind.leaf]), spv]; simp [upd]
   have v5 : (propagateAll D.design sp).val 5 = not1 1 q := by
     have := hfix1 (Kind.leaf D.wd (.not1 2 5)) (by simp [D, KNet.netD, tregNet])
-    simp only [Kind.leaf, List.map, FlatM.g, List.getD_cons_zero, v2, hwd] at this
+    simp only [Kind.leaf, List.map, SeqFlat.g, List.getD_cons_zero, v2, hwd] at this
     rw [this]; exact Leaf.gen_not 1 q
   have v6 : (propagateAll D.design sp).val 6 = mux2 1 i.t q (not1 1 q) := by
     have := hfix1 (Kind.leaf D.wd (.mux2 1 2 5 6)) (by simp [D, KNet.netD, tregNet])
-    simp only [Kind.leaf, List.map, FlatM.g, List.getD_cons_zero, List.getD_cons_succ, v1, v2, v5, hwd] at this
+    simp only [Kind.leaf, List.map, SeqFlat.g, List.getD_cons_zero, List.getD_cons_succ, v1, v2, v5, hwd] at this
     rw [this]; exact Leaf.gen_mux2 1 i.t q (not1 1 q)
   have hR := hreg 0 (tregReg hasE hasR) (by simp [D, KNet.netD, tregNet])
   have hd6 : mux2 1 i.t q (not1 1 q) < 2 ^ 1 := mux2_lt ..
   have hnx := nat_regNext 1 hasR hasE i.r i.e (mux2 1 i.t q (not1 1 q)) q hd6 (by simpa using hq)
   have hrn : regNextV (propagateAll D.design sp).val (tregReg hasE hasR) q
-      = C01.regNext hasR hasE 0 i.r i.e (mux2 1 i.t q (not1 1 q)) q := by
+      = SeqFlat.regNext hasR hasE 0 i.r i.e (mux2 1 i.t q (not1 1 q)) q := by
     simp only [regNextV, tregReg, v6]
-    cases hasE <;> cases hasR <;> simp [C01.regNext, v3, v4]
+    cases hasE <;> cases hasR <;> simp [SeqFlat.regNext, v3, v4]
   rw [hrn] at hR
-  have hstep : (treg ⟨hasE, hasR⟩).step (nat q) i = nat (C01.regNext hasR hasE 0 i.r i.e (mux2 1 i.t q (not1 1 q)) q) := by
+  have hstep : (treg ⟨hasE, hasR⟩).step (nat q) i = nat (SeqFlat.regNext hasR hasE 0 i.r i.e (mux2 1 i.t q (not1 1 q)) q) := by
     simp only [treg, tregClk, nat_q]
     exact hnx.1
   refine ⟨⟨_, hstep, by simpa using hnx.2, hR.2, ?_, hp2⟩, ?_⟩
@@ -305,7 +305,7 @@ theorem counter_step (w : Nat) (hasReset hasInc : Bool) (s : State Int) (st : Re
     rw [this]; exact Leaf.gen_const 1 0
   have v6 : (propagateAll D.design sp).val 6 = add w q (const w 1) := by
     have := hfix1 _ (mem (.addc 1 4 10 6) (by simp [counterNet]))
-    simp only [Kind.leaf, List.map, FlatM.g, List.getD_cons_zero, List.getD_cons_succ, v1, v4, v10, wdw 6 (by simp)] at this
+    simp only [Kind.leaf, List.map, SeqFlat.g, List.getD_cons_zero, List.getD_cons_succ, v1, v4, v10, wdw 6 (by simp)] at this
     rw [this]; exact Leaf.gen_addc w q (const w 1) (const 1 0)
   -- effective reset / inc wires
   have vrs : (propagateAll D.design sp).val (if hasReset then 2 else 5) = if hasReset then i.reset else const w 0 := by
@@ -315,28 +315,28 @@ theorem counter_step (w : Nat) (hasReset hasInc : Bool) (s : State Int) (st : Re
   have v8 : (propagateAll D.design sp).val 8 =
       mux2 w (if hasInc then i.inc else const w 1) q (add w q (const w 1)) := by
     have := hfix1 _ (mem (.mux2 (if hasInc then 3 else 4) 1 6 8) (by simp [counterNet]))
-    simp only [Kind.leaf, List.map, FlatM.g, List.getD_cons_zero, List.getD_cons_succ, v1, v6, vic, wdw 8 (by simp)] at this
+    simp only [Kind.leaf, List.map, SeqFlat.g, List.getD_cons_zero, List.getD_cons_succ, v1, v6, vic, wdw 8 (by simp)] at this
     rw [this]; exact Leaf.gen_mux2 w _ q _
   have v7 : (propagateAll D.design sp).val 7 =
       mux2 w (if hasReset then i.reset else const w 0)
         (mux2 w (if hasInc then i.inc else const w 1) q (add w q (const w 1))) (const w 0) := by
     have := hfix1 _ (mem (.mux2 (if hasReset then 2 else 5) 8 5 7) (by simp [counterNet]))
-    simp only [Kind.leaf, List.map, FlatM.g, List.getD_cons_zero, List.getD_cons_succ, v8, v5, vrs, wdw 7 (by simp)] at this
+    simp only [Kind.leaf, List.map, SeqFlat.g, List.getD_cons_zero, List.getD_cons_succ, v8, v5, vrs, wdw 7 (by simp)] at this
     rw [this]; exact Leaf.gen_mux2 w _ _ _
   have v9 : (propagateAll D.design sp).val 9 =
       or2 1 (if hasReset then i.reset else const w 0) (if hasInc then i.inc else const w 1) := by
     have := hfix1 _ (mem (.or2 (if hasReset then 2 else 5) (if hasInc then 3 else 4) 9) (by simp [counterNet]))
-    simp only [Kind.leaf, List.map, FlatM.g, List.getD_cons_zero, List.getD_cons_succ, vrs, vic, wd1 9 (by simp)] at this
+    simp only [Kind.leaf, List.map, SeqFlat.g, List.getD_cons_zero, List.getD_cons_succ, vrs, vic, wd1 9 (by simp)] at this
     rw [this]; exact Leaf.gen_or2 1 _ _
   have hR := hreg 0 counterReg (by simp [D, KNet.netD, counterNet])
   have hrn : regNextV (propagateAll D.design sp).val counterReg q =
-      C01.regNext false true 0 0 ((propagateAll D.design sp).val 9) ((propagateAll D.design sp).val 7) q := by
-    simp [regNextV, counterReg, C01.regNext]
+      SeqFlat.regNext false true 0 0 ((propagateAll D.design sp).val 9) ((propagateAll D.design sp).val 7) q := by
+    simp [regNextV, counterReg, SeqFlat.regNext]
   rw [hrn, v9, v7] at hR
   have hnx := nat_regNext w false true 0 (or2 1 (if hasReset then i.reset else const w 0) (if hasInc then i.inc else const w 1))
     (mux2 w (if hasReset then i.reset else const w 0)
         (mux2 w (if hasInc then i.inc else const w 1) q (add w q (const w 1))) (const w 0)) q (mux2_lt ..) hq
-  have hstep : (counter ⟨w, hasReset, hasInc⟩).step (nat q) i = nat (C01.regNext false true 0 0
+  have hstep : (counter ⟨w, hasReset, hasInc⟩).step (nat q) i = nat (SeqFlat.regNext false true 0 0
       (or2 1 (if hasReset then i.reset else const w 0) (if hasInc then i.inc else const w 1))
       (mux2 w (if hasReset then i.reset else const w 0)
         (mux2 w (if hasInc then i.inc else const w 1) q (add w q (const w 1))) (const w 0)) q) := by
@@ -452,7 +452,7 @@ theorem step_step (w sw : Nat) (hasReset hasInc : Bool) (s : State Int) (st : Re
     rw [this]; exact Leaf.gen_const 1 0
   have v6 : (propagateAll D.design sp).val 6 = add w q i.step := by
     have := hfix1 _ (mem (.addc 1 11 10 6) (by cases hasInc <;> simp [stepNet]))
-    simp only [Kind.leaf, List.map, FlatM.g, List.getD_cons_zero, List.getD_cons_succ, v1, v11, v10, wdw 6 (by simp) (by simp)] at this
+    simp only [Kind.leaf, List.map, SeqFlat.g, List.getD_cons_zero, List.getD_cons_succ, v1, v11, v10, wdw 6 (by simp) (by simp)] at this
     rw [this]; exact Leaf.gen_addc w q i.step (const 1 0)
   -- effective reset / inc wires
   have vrs : (propagateAll D.design sp).val (if hasReset then 2 else 5) = if hasReset then i.reset else const w 0 := by
@@ -464,28 +464,28 @@ theorem step_step (w sw : Nat) (hasReset hasInc : Bool) (s : State Int) (st : Re
   have v8 : (propagateAll D.design sp).val 8 =
       mux2 w (if hasInc then i.inc else const 1 1) q (add w q i.step) := by
     have := hfix1 _ (mem (.mux2 (if hasInc then 3 else 4) 1 6 8) (by cases hasInc <;> simp [stepNet]))
-    simp only [Kind.leaf, List.map, FlatM.g, List.getD_cons_zero, List.getD_cons_succ, v1, v6, vic, wdw 8 (by simp) (by simp)] at this
+    simp only [Kind.leaf, List.map, SeqFlat.g, List.getD_cons_zero, List.getD_cons_succ, v1, v6, vic, wdw 8 (by simp) (by simp)] at this
     rw [this]; exact Leaf.gen_mux2 w _ q _
   have v7 : (propagateAll D.design sp).val 7 =
       mux2 w (if hasReset then i.reset else const w 0)
         (mux2 w (if hasInc then i.inc else const 1 1) q (add w q i.step)) (const w 0) := by
     have := hfix1 _ (mem (.mux2 (if hasReset then 2 else 5) 8 5 7) (by cases hasInc <;> simp [stepNet]))
-    simp only [Kind.leaf, List.map, FlatM.g, List.getD_cons_zero, List.getD_cons_succ, v8, v5, vrs, wdw 7 (by simp) (by simp)] at this
+    simp only [Kind.leaf, List.map, SeqFlat.g, List.getD_cons_zero, List.getD_cons_succ, v8, v5, vrs, wdw 7 (by simp) (by simp)] at this
     rw [this]; exact Leaf.gen_mux2 w _ _ _
   have v9 : (propagateAll D.design sp).val 9 =
       or2 1 (if hasReset then i.reset else const w 0) (if hasInc then i.inc else const 1 1) := by
     have := hfix1 _ (mem (.or2 (if hasReset then 2 else 5) (if hasInc then 3 else 4) 9) (by cases hasInc <;> simp [stepNet]))
-    simp only [Kind.leaf, List.map, FlatM.g, List.getD_cons_zero, List.getD_cons_succ, vrs, vic, wd1 9 (by simp)] at this
+    simp only [Kind.leaf, List.map, SeqFlat.g, List.getD_cons_zero, List.getD_cons_succ, vrs, vic, wd1 9 (by simp)] at this
     rw [this]; exact Leaf.gen_or2 1 _ _
   have hR := hreg 0 stepReg (by simp [D, KNet.netD, stepNet])
   have hrn : regNextV (propagateAll D.design sp).val stepReg q =
-      C01.regNext false true 0 0 ((propagateAll D.design sp).val 9) ((propagateAll D.design sp).val 7) q := by
-    simp [regNextV, stepReg, C01.regNext]
+      SeqFlat.regNext false true 0 0 ((propagateAll D.design sp).val 9) ((propagateAll D.design sp).val 7) q := by
+    simp [regNextV, stepReg, SeqFlat.regNext]
   rw [hrn, v9, v7] at hR
   have hnx := nat_regNext w false true 0 (or2 1 (if hasReset then i.reset else const w 0) (if hasInc then i.inc else const 1 1))
     (mux2 w (if hasReset then i.reset else const w 0)
         (mux2 w (if hasInc then i.inc else const 1 1) q (add w q i.step)) (const w 0)) q (mux2_lt ..) hq
-  have hstep : (stepUpCounter w hasReset hasInc).step (nat q) i = nat (C01.regNext false true 0 0
+  have hstep : (stepUpCounter w hasReset hasInc).step (nat q) i = nat (SeqFlat.regNext false true 0 0
       (or2 1 (if hasReset then i.reset else const w 0) (if hasInc then i.inc else const 1 1))
       (mux2 w (if hasReset then i.reset else const w 0)
         (mux2 w (if hasInc then i.inc else const 1 1) q (add w q i.step)) (const w 0)) q) := by
@@ -567,8 +567,8 @@ def delayNext (c : DelayCfg) (i : DelayIn) (l : List Nat) : List Nat :=
 
 theorem delayNext_get (c : DelayCfg) (i : DelayIn) (l : List Nat) (j : Nat) (hj : j < l.length) :
     (delayNext c i l).getD j 0 =
-      C01.regNext c.hasReset c.hasEn 0 i.reset i.en (if j = 0 then i.a else l.getD (j - 1) 0) (l.getD j 0) := by
-  unfold delayNext C01.regNext
+      SeqFlat.regNext c.hasReset c.hasEn 0 i.reset i.en (if j = 0 then i.a else l.getD (j - 1) 0) (l.getD j 0) := by
+  unfold delayNext SeqFlat.regNext
   simp only [opt_eq_some]
   by_cases h1 : c.hasReset = true ∧ i.reset = 1
   · simp [h1, List.getD_eq_getElem?_getD, List.getElem?_replicate, hj]
@@ -656,7 +656,7 @@ theorem delay_step (c : DelayCfg) (s : State Int) (st : List RegSt) (i : DelayIn
         have : 4 + j = 5 + (j - 1) := by omega
         rw [this, vq (j - 1) (by omega)]
     simp only [regNextV, delayReg, hd]
-    cases hE : c.hasEn <;> cases hRr : c.hasReset <;> simp [C01.regNext, v3, v4]
+    cases hE : c.hasEn <;> cases hRr : c.hasReset <;> simp [SeqFlat.regNext, v3, v4]
   have hlt' := delayNext_lt c i l ha hall
   have hlen' : (delayNext c i l).length = c.delay := by rw [delayNext_len, hlen]
   have getlt : ∀ j, (delayNext c i l).getD j 0 < 2 ^ c.w := by
@@ -684,7 +684,7 @@ theorem delay_step (c : DelayCfg) (s : State Int) (st : List RegSt) (i : DelayIn
   rw [hstep]
   simp only [List.map, delayLine, chainLast_nat]
   have hb := hfix2 (Kind.leaf D.wd (.buf (if c.delay = 0 then 1 else 4 + c.delay) 2)) (by simp [D, KNet.netD, delayNet])
-  simp only [Kind.leaf, List.map, FlatM.g, List.getD_cons_zero, wdw 2 (by simp)] at hb
+  simp only [Kind.leaf, List.map, SeqFlat.g, List.getD_cons_zero, wdw 2 (by simp)] at hb
   show [(clk D.design 1 sp).val 2] = _
   rw [hb]
   have hlast : (clk D.design 1 sp).val (if c.delay = 0 then 1 else 4 + c.delay) = (delayNext c i l).getLast?.getD i.a := by
@@ -775,13 +775,13 @@ theorem edge_comb (dir : Dir) (V : Nat → Nat) (hfix2 : CombFix (edgeNet dir).n
       V y = not1 1 v := by
     intro x y v hk hx
     have := hfix2 _ (mem _ hk)
-    simp only [Kind.leaf, List.map, FlatM.g, List.getD_cons_zero, hx, hwd] at this
+    simp only [Kind.leaf, List.map, SeqFlat.g, List.getD_cons_zero, hx, hwd] at this
     rw [this]; exact Leaf.gen_not 1 v
   have AND : ∀ x y z u v, Kind.and2 x y z ∈ (edgeNet dir).kinds → V x = u →
       V y = v → V z = and2 1 u v := by
     intro x y z u v hk hx hy
     have := hfix2 _ (mem _ hk)
-    simp only [Kind.leaf, List.map, FlatM.g, List.getD_cons_zero, List.getD_cons_succ, hx, hy, hwd] at this
+    simp only [Kind.leaf, List.map, SeqFlat.g, List.getD_cons_zero, List.getD_cons_succ, hx, hy, hwd] at this
     rw [this]; exact Leaf.gen_and2 1 u v
   cases dir
   · have w5 := NOT 3 5 p (by simp [edgeNet]) w3
@@ -834,7 +834,7 @@ theorem edge_step (dir : Dir) (s : State Int) (st : RegSt) (a : Nat) (ha : a < 2
     rw [hin2 1 free1 (by intro R hR; simp [D, KNet.netD, edgeNet] at hR; subst hR; simp [edgeReg]), spv]; simp [upd]
   have hR := hreg 0 edgeReg (by simp [D, KNet.netD, edgeNet])
   have hrn : regNextV (propagateAll D.design sp).val edgeReg p = a := by
-    simp [regNextV, edgeReg, C01.regNext, v1]
+    simp [regNextV, edgeReg, SeqFlat.regNext, v1]
   rw [hrn] at hR
   have hstep : (edgeDetector dir).step (nat p) a = nat a := by
     simp only [edgeDetector]
@@ -1079,7 +1079,7 @@ theorem srb_step (w depth : Nat) (hd : 0 < depth) (s : State Int) (st : List Reg
     refine ⟨?_, ?_, ?_, ?_⟩
     · have := hfix _ (memK 0 (by omega))
       rw [srbKind_0] at this
-      simp only [Kind.leaf, List.map, FlatM.g, List.getD_cons_zero, List.getD_cons_succ, h5, h6, wd1 7 (by simp)] at this
+      simp only [Kind.leaf, List.map, SeqFlat.g, List.getD_cons_zero, List.getD_cons_succ, h5, h6, wd1 7 (by simp)] at this
       rw [this]; exact Leaf.gen_or2 1 _ _
     · intro k hk
       have := hfix _ (memK (k + 1) (by omega))
@@ -1096,21 +1096,21 @@ theorem srb_step (w depth : Nat) (hd : 0 < depth) (s : State Int) (st : List Reg
         · simp only [h0, if_false]
           have : 8 + k + 1 = 8 + (k + 1) := by omega
           rw [this, hq (k + 1) (by omega)]
-      simp only [Kind.leaf, List.map, FlatM.g, List.getD_cons_zero, List.getD_cons_succ, h5, hvl, hvr,
+      simp only [Kind.leaf, List.map, SeqFlat.g, List.getD_cons_zero, List.getD_cons_succ, h5, hvl, hvr,
         wdw (8 + depth + k) (by omega)] at this
       rw [this]; exact Leaf.gen_mux2 w _ _ _
     · have := hfix _ (memK (depth + 1) (by omega))
       rw [srbKind_lo] at this
       have h8 := hq 0 hd
       simp only [Nat.add_zero] at h8
-      simp only [Kind.leaf, List.map, FlatM.g, List.getD_cons_zero, h8, wdw 3 (by simp)] at this
+      simp only [Kind.leaf, List.map, SeqFlat.g, List.getD_cons_zero, h8, wdw 3 (by simp)] at this
       rw [this]; exact Leaf.gen_buf w _
     · have := hfix _ (memK (depth + 2) (by omega))
       rw [srbKind_ro] at this
       have h8 := hq (depth - 1) (by omega)
       have e8 : 8 + (depth - 1) = 8 + depth - 1 := by omega
       rw [e8] at h8
-      simp only [Kind.leaf, List.map, FlatM.g, List.getD_cons_zero, h8, wdw 4 (by simp)] at this
+      simp only [Kind.leaf, List.map, SeqFlat.g, List.getD_cons_zero, h8, wdw 4 (by simp)] at this
       rw [this]; exact Leaf.gen_buf w _
   have v1 : (propagateAll D.design sp).val 1 = i.leftIn := by rw [hin1 1 (free 1 (by simp)), spv]; simp [upd]
   have v2 : (propagateAll D.design sp).val 2 = i.rightIn := by rw [hin1 2 (free 2 (by simp)), spv]; simp [upd]
@@ -1134,7 +1134,7 @@ theorem srb_step (w depth : Nat) (hd : 0 < depth) (s : State Int) (st : List Reg
                (if k = depth - 1 then i.rightIn else l.getD (k + 1) 0)) := by
       rw [List.getD_eq_getElem?_getD, he]; rfl
     rw [this]
-    simp only [regNextV, srbReg, C01.regNext, c7, cmux k hk]
+    simp only [regNextV, srbReg, SeqFlat.regNext, c7, cmux k hk]
     simp
   have getlt : ∀ k, l'.getD k 0 < 2 ^ w := getD_lt w l' hlt'
   have hregs : ∀ k, k < depth →
@@ -1373,7 +1373,7 @@ theorem stack_net_step (w depth : Nat) (hd : 0 < depth) (s : State Int) (st : St
     refine ⟨?_, ?_, ?_⟩
     · have := hfix _ (memK 1 (by omega))
       rw [sk 0, srbKind_0] at this
-      simp only [Kind.leaf, List.map, FlatM.g, List.getD_cons_zero, List.getD_cons_succ, h5, h6, wd1 7 (by simp)] at this
+      simp only [Kind.leaf, List.map, SeqFlat.g, List.getD_cons_zero, List.getD_cons_succ, h5, h6, wd1 7 (by simp)] at this
       rw [this]; exact Leaf.gen_or2 1 _ _
     · intro k hk
       have := hfix _ (memK (k + 2) (by omega))
@@ -1390,14 +1390,14 @@ theorem stack_net_step (w depth : Nat) (hd : 0 < depth) (s : State Int) (st : St
         · simp only [h0, if_false]
           have : 8 + k + 1 = 8 + (k + 1) := by omega
           rw [this, hq (k + 1) (by omega)]
-      simp only [Kind.leaf, List.map, FlatM.g, List.getD_cons_zero, List.getD_cons_succ, h5, hvl, hvr,
+      simp only [Kind.leaf, List.map, SeqFlat.g, List.getD_cons_zero, List.getD_cons_succ, h5, hvl, hvr,
         wdw (8 + depth + k) (by omega)] at this
       rw [this]; exact Leaf.gen_mux2 w _ _ _
     · have := hfix _ (memK (depth + 2) (by omega))
       rw [sk (depth + 1), srbKind_lo] at this
       have h8 := hq 0 hd
       simp only [Nat.add_zero] at h8
-      simp only [Kind.leaf, List.map, FlatM.g, List.getD_cons_zero, h8, wdw 3 (by simp)] at this
+      simp only [Kind.leaf, List.map, SeqFlat.g, List.getD_cons_zero, h8, wdw 3 (by simp)] at this
       rw [this]; exact Leaf.gen_buf w _
   have v1 : (propagateAll D.design sp).val 1 = i.din := by rw [hin1 1 (free 1 (by simp)), spv]; simp [upd]
   have v5 : (propagateAll D.design sp).val 5 = i.pop := by rw [hin1 5 (free 5 (by simp)), spv]; simp [upd]
@@ -1422,7 +1422,7 @@ theorem stack_net_step (w depth : Nat) (hd : 0 < depth) (s : State Int) (st : St
                (if k = depth - 1 then const w 0 else l.getD (k + 1) 0)) := by
       rw [List.getD_eq_getElem?_getD, he]; rfl
     rw [this]
-    simp only [regNextV, srbReg, C01.regNext, c7, cmux k hk]
+    simp only [regNextV, srbReg, SeqFlat.regNext, c7, cmux k hk]
     simp
   have getlt : ∀ k, l'.getD k 0 < 2 ^ w := getD_lt w l' hlt'
   have hregs : ∀ k, k < depth →
@@ -1446,16 +1446,16 @@ theorem stack_net_step (w depth : Nat) (hd : 0 < depth) (s : State Int) (st : St
   simp only [Nat.lt_irrefl, if_false] at hdR
   have hbl : buf w (l.getD 0 0) < 2 ^ w := Nat.mod_lt _ (Nat.two_pow_pos w)
   have hnx := nat_regNext w false true 0 i.pop (buf w (l.getD 0 0)) dq hbl hdq
-  have hrn : regNextV (propagateAll D.design sp).val dR dq = C01.regNext false true 0 0 i.pop (buf w (l.getD 0 0)) dq := by
-    simp [regNextV, dR, C01.regNext, v5, c3]
+  have hrn : regNextV (propagateAll D.design sp).val dR dq = SeqFlat.regNext false true 0 0 i.pop (buf w (l.getD 0 0)) dq := by
+    simp [regNextV, dR, SeqFlat.regNext, v5, c3]
   rw [hrn] at hdR
   have hstep : (stack w depth).step ⟨l.map nat, nat dq⟩ i =
-      ⟨l'.map nat, nat (C01.regNext false true 0 0 i.pop (buf w (l.getD 0 0)) dq)⟩ := by
+      ⟨l'.map nat, nat (SeqFlat.regNext false true 0 0 i.pop (buf w (l.getD 0 0)) dq)⟩ := by
     simp only [stack]
     rw [srbClk_nat w depth si l hd hlen hall, qAt, getD_map_nat, nat_q, ← hnx.1]
     rfl
   have hwq : D.wd (8 + 2 * depth) = w := wdw _ (by omega)
-  have hvq' : (clk D.design 1 sp).val (8 + 2 * depth) = C01.regNext false true 0 0 i.pop (buf w (l.getD 0 0)) dq := by
+  have hvq' : (clk D.design 1 sp).val (8 + 2 * depth) = SeqFlat.regNext false true 0 0 i.pop (buf w (l.getD 0 0)) dq := by
     have := hdR.1
     simp only [dR, hwq, Bits.put_ofNat] at this
     rw [this]; exact Nat.mod_eq_of_lt hnx.2
@@ -1602,7 +1602,7 @@ theorem pipe_step (ws : List Nat) (s : State Int) (st : List RegSt) (i : PipeIn)
     have := C04.foldl_putW_hit D.design (pipePokes n i) s hnd (1, (i.reset : Int)) (by simp [pipePokes])
     rw [this]
     simp only [C04.mval]
-    rw [show (D.design.width 1) = D.wd 1 from rfl, FlatM.wput, wd1, Bits.put_ofNat]
+    rw [show (D.design.width 1) = D.wd 1 from rfl, SeqFlat.wput, wd1, Bits.put_ofNat]
     exact Nat.mod_eq_of_lt hr
   have spi : ∀ j, j < n → sp.val (2 + j) = i.ins.getD j 0 := by
     intro j hj
@@ -1610,7 +1610,7 @@ theorem pipe_step (ws : List Nat) (s : State Int) (st : List RegSt) (i : PipeIn)
       (by simp only [pipePokes]; exact List.mem_cons_of_mem _ (List.mem_map.mpr ⟨j, List.mem_range.mpr hj, rfl⟩))
     rw [this]
     simp only [C04.mval]
-    rw [show (D.design.width (2 + j)) = D.wd (2 + j) from rfl, FlatM.wput, wdi j hj, Bits.put_ofNat]
+    rw [show (D.design.width (2 + j)) = D.wd (2 + j) from rfl, SeqFlat.wput, wdi j hj, Bits.put_ofNat]
     exact Nat.mod_eq_of_lt (hfi.2 j hj)
   have spo : ∀ j, j < n → sp.val (2 + n + j) = l.getD j 0 := by
     intro j hj
@@ -1633,7 +1633,7 @@ theorem pipe_step (ws : List Nat) (s : State Int) (st : List RegSt) (i : PipeIn)
   have hnext : ∀ j, j < n → regNextV (propagateAll D.design sp).val (pipeReg n j) (l.getD j 0) = l'.getD j 0 := by
     intro j hj
     rw [pipeNext_get ws i hf j hj]
-    simp only [regNextV, pipeReg, C01.regNext, hin1 1 (nocomb 1), hin1 (2 + j) (nocomb _), sp1, spi j hj]
+    simp only [regNextV, pipeReg, SeqFlat.regNext, hin1 1 (nocomb 1), hin1 (2 + j) (nocomb _), sp1, spi j hj]
     by_cases h1 : i.reset = 1 <;> simp [h1]
   have hregs : ∀ j, j < n →
       (clk D.design 1 sp).st (D.rid j) = (l'.getD j 0 : Nat) ∧ (clk D.design 1 sp).val (2 + n + j) = l'.getD j 0 := by
